@@ -472,7 +472,41 @@ pub fn catch<R>(f: impl FnOnce() -> R) -> Result<R, String> {
     }
 }
 
-/// Silence the default panic message printing (panics inside `catch` are expected outcomes).
+static LAST_PANIC: std::sync::Mutex<Vec<String>> = std::sync::Mutex::new(Vec::new());
+
+/// Silence the default panic message printing (panics inside `catch` are expected outcomes); the
+/// most recent panic is remembered so that `guard_main` can report one that was *not* caught.
 pub fn quiet_panics() {
-    std::panic::set_hook(Box::new(|_| {}));
+    std::panic::set_hook(Box::new(|info| {
+        let msg = if let Some(s) = info.payload().downcast_ref::<&str>() {
+            s.to_string()
+        } else if let Some(s) = info.payload().downcast_ref::<String>() {
+            s.clone()
+        } else {
+            "panic".to_string()
+        };
+        let at = info.location().map(|l| format!(" at {}:{}", l.file(), l.line())).unwrap_or_default();
+        if std::env::var_os("VERIF_PANIC_TRACE").is_some() {
+            eprintln!("panic: {msg}{at}\n{}", std::backtrace::Backtrace::force_capture());
+        }
+        if let Ok(mut g) = LAST_PANIC.lock() {
+            if g.len() >= 4 {
+                g.remove(0);
+            }
+            g.push(format!("{msg}{at}"));
+        }
+    }));
+}
+
+/// Run a check's body; a panic that escapes it is a failure of the machinery (exit code 2 with a
+/// `MACHINERY-ERROR` line), never a verdict and never a silent exit.
+pub fn guard_main(property: &str, f: impl FnOnce() -> i32) -> i32 {
+    match std::panic::catch_unwind(std::panic::AssertUnwindSafe(f)) {
+        Ok(code) => code,
+        Err(_) => {
+            let what = LAST_PANIC.lock().map(|g| g.join(" <- then: ")).unwrap_or_else(|_| "panic".into());
+            println!("MACHINERY-ERROR property={property} harness panicked: {what}");
+            2
+        }
+    }
 }
